@@ -430,4 +430,18 @@ def round1 (q : Rat) : Rat :=
   let r : Int := if d < 1/2 then f else if d > 1/2 then f + 1 else (if f % 2 = 0 then f else f + 1)
   (r : Rat) / 10
 
+/-! ### `disk_usage(path)` as a call -/
+
+/-- `os.statvfs(path)` either raises `OSError(errno)` — `disk_usage` has no exception handler (the
+    translator refuses a `try` statement in its body), so the error reaches the caller unchanged — or
+    returns the record the assignments are evaluated on -/
+inductive UsageCall
+  | raised (errno : Nat)
+  | value (u : Option Usage)
+  deriving Repr
+
+def diskUsageCall (cfg : UsageCfg) : Except Nat (List (String × Int)) → UsageCall
+  | .error e => .raised e
+  | .ok st => .value (diskUsage cfg st)
+
 end Psutil.C09
